@@ -154,6 +154,11 @@ def _val(draw, var, cls, depth, model, names, miss):
         pos, kw = draw(_shape(model["Jet.obj"], arg, miss))
         p3, k3 = draw(_shape(model["Trk.val"], arg, miss))
         return ["site", ["site", ["var", var], "Jet", "obj", pos, kw], "Trk", "val", p3, k3]
+    if c == 8 and draw(st.integers(0, 2)) == 0:
+        # a conditional expression: call sites in its CONDITION are call sites like those in its branches
+        t_ = draw(_val(var, cls, depth - 1, model, names, miss))
+        a = draw(_val(var, cls, depth - 1, model, names, miss)) if draw(st.booleans()) else ["const", "1.5"]
+        return ["cond", t_, a, ["const", "2.5"]]
     if c == 8:
         a = draw(_val(var, cls, depth - 1, model, names, miss))
         b = draw(_val(var, cls, depth - 1, model, names, miss))
@@ -377,6 +382,8 @@ def render(ir, ns, mode, consts):
         return f"{_pr(R(ir[1]))}.First()"
     if k == "count":
         return f"{_pr(R(ir[1]))}.Count()"
+    if k == "cond":
+        return f"({R(ir[2])} if {R(ir[1])} > 0 else {R(ir[3])})"
     if k == "bin":
         return f"({R(ir[2])} {ir[1]} {R(ir[3])})"
     if k == "dict":
